@@ -14,12 +14,12 @@ RULE = ("seeded re-entrancy schedules: 2-8 recording systems, 1-4 actor scripts 
         "effective mutation executed from inside a timestep while >=1 eligible system of the step's initial "
         "queue was still behind the actor; distinct = distinct abstract schedule shape (queue length, actor "
         "position, action kind, relative target position / priority relation per effective mutation)"
-        "; also: falsy systems (__len__ == 0 / __bool__ false), removal through the target's own clean_up(), instance identity (id#generation), hot swap of an id, nested stepping of another model from inside a system, systems with value-based __eq__")
+        "; also: falsy systems (__len__ == 0 / __bool__ false), removal through the target's own clean_up(), a registered system re-prioritised in mid-step (attribute assigned, removed, the same object re-added), instance identity (id#generation), hot swap of an id, nested stepping of another model from inside a system, systems with value-based __eq__")
 COMPONENTS = {"real": ["ECAgent.Core.SystemManager (add_system, remove_system, execute_systems)", "ECAgent.Core.Model",
                        "ECAgent.Core.System.clean_up"],
               "stub": ["System.execute bodies are harness recording systems driven by the scenario script"]}
 PROBES = ["actor_first", "actor_middle", "actor_last", "target_before", "target_self", "target_after",
-          "new_higher", "new_equal", "new_lower", "two_mutations_one_step", "hot_swap_same_id", "other_model_stepped_mid_timestep", "systems_with_value_equality", "falsy_systems", "removed_via_targets_clean_up"]
+          "new_higher", "new_equal", "new_lower", "two_mutations_one_step", "hot_swap_same_id", "other_model_stepped_mid_timestep", "systems_with_value_equality", "falsy_systems", "removed_via_targets_clean_up", "reprioritised_same_object"]
 SHRINK_LISTS = ["scripts", "systems"]
 SHRINK_SKIP = ("end",)
 
@@ -69,6 +69,12 @@ def generate(rng, tier):
                 prio_of[tgt] = spec["prio"]
             else:
                 actions.append({"op": "remove", "target": f"ghost{rng.randint(0, 3)}"})
+        if rng.random() < 0.08:
+            # re-prioritise a registered system the natural way: assign the attribute, take it out, put the SAME object back
+            tgt = rng.choice(known)
+            actions.append({"op": "reprio", "target": tgt, "prio": prio_of[tgt] + rng.choice([-7, -3, -1, 1, 2, 6]),
+                            "via": rng.choice(["id", "clean_up"])})
+            prio_of[tgt] = actions[-1]["prio"]
         scripts.append({"actor": actor, "t": t, "actions": actions})
     return dict({"systems": systems, "scripts": scripts, "steps": steps}, **gen_flavour(rng))
 
@@ -187,6 +193,32 @@ class World:
             rel = "self" if tgt == rec.id else ("new" if tpos is None else ("before" if tpos < apos else "after"))
             self._effective(apos, behind, "replace", rel)
             ctx.probe("hot_swap_same_id")
+        elif op == "reprio":
+            tgt = act["target"]
+            if not ref.has(tgt):
+                return
+            o = self.objs[tgt]
+            o.priority = act["prio"]
+            st, v = ctx.call(o.clean_up) if act.get("via") == "clean_up" else ctx.call(sm.remove_system, tgt)
+            if st != "ok":
+                ctx.fail("midstep-remove:unexpected-exception", f"{type(v).__name__}: {v}")
+            ref.remove(tgt)
+            self.log.append(("r", tgt, o.uid))
+            st, v = ctx.call(sm.add_system, o)
+            if st != "ok":
+                ctx.fail("midstep-add:unexpected-exception", f"{type(v).__name__}: {v}")
+            spec = dict(self.spec_of[o.uid], prio=act["prio"])
+            self.spec_of[o.uid] = spec
+            ref.add(spec)
+            self.uid_of[tgt] = o.uid
+            self.log.append(("a", tgt, o.uid))       # the same object is registered again: from here on it is a newcomer
+            self.readded.add(o.uid)
+            self.added_now.append(tgt)
+            ctx.event("reprio", tgt, act["prio"])
+            tpos = self._pos(tgt)
+            rel = "self" if tgt == rec.id else ("new" if tpos is None else ("before" if tpos < apos else "after"))
+            self._effective(apos, behind, "reprio", rel)
+            ctx.probe("reprioritised_same_object")
         elif op == "step_other":
             # nested stepping of a second, independent model (with its own systems and its own removals)
             if self.other is None:
@@ -239,6 +271,7 @@ class World:
         self.q0_uids = [self.uid_of[sid] for sid in self.q0]
         self.log = []
         self.added_now = []
+        self.readded = set()      # uids of instances removed and registered again (same object) during this step
         self.mut_this_step = 0
         st, v = ctx.call(self.model.execute)
         if st != "ok":
@@ -258,6 +291,8 @@ class World:
         for i, e in enumerate(self.log):
             if e[0] == "r":
                 removed_at.setdefault(e[2], i)
+            elif e[0] == "a":
+                removed_at.pop(e[2], None)
             elif e[2] in removed_at:
                 ctx.fail("ran-after-removal", f"t={t}: {e[2]} executed after it was removed; log={[x[:3] for x in self.log]}")
         # only eligible systems may run at all (members of Q0 and newcomers alike)
@@ -267,7 +302,7 @@ class World:
                 ctx.check(sp is not None and ref.eligible(sp, t), "ran-outside-window",
                           f"t={t}: {e[2]} executed but is not due; log={execs}")
         # (b) eligible members of Q0 still registered (same instance) at the end ran exactly once; (c) in Q0 order
-        stay = [u for sid, u in zip(self.q0, self.q0_uids) if sid in self.elig0 and self.uid_of.get(sid) == u]
+        stay = [u for sid, u in zip(self.q0, self.q0_uids) if sid in self.elig0 and self.uid_of.get(sid) == u and u not in self.readded]
         for u in stay:
             ctx.check(u in seen, "skipped", f"t={t}: {u} stayed registered and was due but did not run; "
                                             f"log={execs} q0={self.q0_uids}")
